@@ -189,7 +189,7 @@ impl HijriDate {
         let mut year: i32;
         if greg_date < Self::HIJRI_EPOCH {
             year = 0;
-            while greg_date <= Self::hijri_abs_date(1, 1, year) {
+            while greg_date < Self::hijri_abs_date(1, 1, year) {
                 year -= 1;
             }
         } else {
